@@ -312,14 +312,25 @@ def _colliding(kind):
             @rpc(Parcel, _returns=Integer, _body_style='bare', _in_message_name='submit')
             def ship(ctx, p):
                 return 2
+    elif kind in ('twin services bare', 'twin services wrapped'):
+        # two different service classes stamped out by one factory: same module, same class name, same method
+        def make(ret):
+            kw = {'_body_style': 'bare'} if kind.endswith('bare') else {}
+
+            class Twin(Service):
+                @rpc(Parcel, _returns=Integer, **kw)
+                def submit(ctx, p):
+                    return ret
+            return Twin
+        S1, S2 = make(1), make(2)
     else:
         raise ValueError(kind)
     return S1, S2
 
 
-@harness('C11', params=['same-name wrapped', 'operation_name', 'bare in_message_name'],
+@harness('C11', params=['same-name wrapped', 'operation_name', 'bare in_message_name', 'twin services bare', 'twin services wrapped'],
          functions=['spyne.interface._base.Interface.process_method', 'spyne.application.Application.check_unique_method_keys'],
-         bounds={'universes': 'three concrete pairs of services whose methods answer to the same name, in both orders '
+         bounds={'universes': 'five concrete pairs of services whose methods answer to the same name, in both orders '
                               '(enumeration of programs, no symbolic input)'})
 def colliding_names_rejected(sx, kind):
     """two methods that would answer to the same name are rejected when the application is constructed - or, if the
@@ -333,11 +344,12 @@ def colliding_names_rejected(sx, kind):
     except Exception:
         return True
     # accepted: then the name must not be ambiguous - at most one primary function may answer to each name
+    who = lambda d: ('S1' if d.service_class is S1 else 'S2' if d.service_class is S2 else '?') + '.' + d.function.__name__
     names = {}
     for k, descs in app.interface.service_method_map.items():
-        names[k] = sorted(d.function.__name__ for d in descs)
+        names[k] = sorted(who(d) for d in descs)
     other = Application(list(reversed(services)), TNS, in_protocol=JsonDocument(), out_protocol=JsonDocument(),
                         name='CollR_%s_%s' % (kind.replace(' ', '_'), order.replace(',', '')))
-    names2 = dict((k, sorted(d.function.__name__ for d in descs)) for k, descs in other.interface.service_method_map.items())
+    names2 = dict((k, sorted(who(d) for d in descs)) for k, descs in other.interface.service_method_map.items())
     sx.observe('map', names)
     return names == names2
